@@ -217,7 +217,9 @@ def setupAsset (v : Version) (env : Env) (s : PyState) (a : Nat) (arg : Option N
     let arg' : Option Nat := match arg with
       | some g => some g
       | none => if v.scaledOwnGrid then st.grid else none
-    match buildPlain v.rederive s.grids b.grid b.start b.stop base.freq base.wacc arg' with
+    -- 0e4cac8: the base asset's start / end are clipped by the scaled asset's own window for the duration of the
+    -- set-up and restored afterwards (`finally:`), as a structured asset does with its inner assets
+    match buildPlain v.rederive s.grids b.grid (clipStart b.start p.start) (clipStop b.stop p.stop) base.freq base.wacc arg' with
     | (G, bptr, .error e) => (upd G { st with sub := [{ b with grid := bptr }] }, .error e)
     | (G, none, .ok _) => (upd G { st with sub := [{ b with grid := none }] }, .error .noGrid)   -- unreachable: a built asset has a grid
     | (G, some g, .ok u) =>
@@ -352,7 +354,7 @@ def usedOf (g : Nat) (start stop : Option Int) (freq : Option Nat) (wacc : Rat) 
 def pureAsset (x : Asset) (g : Nat) : List Used :=
   match x with
   | .plain p => [usedOf g p.start p.stop p.freq p.wacc]
-  | .scaled p b => [usedOf g b.start b.stop b.freq b.wacc, usedOf g p.start p.stop p.freq p.wacc]
+  | .scaled p b => [usedOf g (clipStart b.start p.start) (clipStop b.stop p.stop) b.freq b.wacc, usedOf g p.start p.stop p.freq p.wacc]
   | .structured p inner => inner.map fun q => usedOf g (clipStart q.start p.start) (clipStop q.stop p.stop) q.freq q.wacc
 
 /-- "the grid set before" of asset `a`: its own attribute; a scaled asset without one works on its base asset's -/
